@@ -26,17 +26,19 @@ RULE = ("one connection (plain or TLS) to a real http.Server with tymeout T in {
         "0 (would block), 7, 40 or all bytes of the one send attempt; pass times are concentrated within one unit of "
         "the window edge last_bytes_moved+T; tyme unit 1, 1/4, 1/32 or 8 s; a case is non-trivial when T > 0 and "
         "either a pass with traffic falls within one unit of the deadline of that moment or a send attempt with "
-        "pending output is blocked or the server is wound to a tymist at a different tyme while the connection is open; "
+        "pending output is blocked or the Responder of a deferring app (X-Defer: 1, 2, 3, 5 or never finishing, half of the "
+        "non-persistent requests) is still in progress or the server is wound to a tymist at a different tyme while the connection is open; "
         "with probability 0 / 0.08 / 0.25 per step the server is wound to a new Tymist at tyme 0, earlier, later or equal")
 MODELLED = ["virtual tyme as integers (the harness uses tymes that are integer multiples of a unit of 1, 1/4, 1/32 or 8 s, so "
             "float arithmetic is exact; other fractional tymes are not exercised)",
             "HTTP content reduced to: number of received chunks per pass, whether a persistent / non-persistent request "
-            "head completes in the pass, and the response size R (observed, the same for every request of a case)",
+            "head completes in the pass, how many empty results the WSGI app yields first (one per pass), and the response size R (observed, the same for every request of a case)",
             "the kernel's send behaviour (bytes accepted per send() of a pass, scripted on the fake socket)",
             "sockets (fake socket module shared with C11); the server is wound to a Tymist"]
 
 CA = 0
 ALL = 1000000     # cap meaning "the kernel takes everything"
+NEVER = 1000000   # number of empty results of an app that never finishes
 
 
 def directed():
@@ -96,6 +98,20 @@ def directed():
         # wind of a persistent and of a closed connection
         {"tls": False, "T": 3, "t0": 0, "passes": [P(0, "req", 1), [40, ["wind"], 0], P(9, "idle"), P(9, "idle")]},
         {"tls": False, "T": 2, "t0": 0, "passes": [P(0, "idle"), P(2, "idle"), [0, ["wind"], 0], P(1, "idle")]},
+        # app that never finishes (yields b'' for ever): no byte moves, closed T after the request (seeded change C12-3 witness)
+        {"tls": False, "T": 3, "t0": 0, "passes": [P(0, "reqdefer", 1, NEVER), P(1, "idle"), P(1, "idle"), P(1, "idle"), P(1, "idle")]},
+        {"tls": True, "T": 3, "t0": 0, "passes": [P(0, "rx", 1), P(2, "reqdefer", 2, NEVER), P(2, "idle"), P(1, "idle"), P(1, "idle")]},
+        # app that finishes later than the timeout: the connection is gone by then
+        {"tls": False, "T": 2, "t0": 0, "passes": [P(0, "reqdefer", 1, 4), P(1, "idle"), P(1, "idle"), P(1, "idle"), P(1, "idle"),
+                                                    P(1, "idle")]},
+        # app that finishes in time: response goes out, closed when done; then one that meets a stalled reader
+        {"tls": False, "T": 4, "t0": 0, "passes": [P(0, "reqdefer", 1, 2), P(1, "idle"), P(1, "idle"), P(1, "idle"), P(1, "idle")]},
+        {"tls": False, "T": 4, "t0": 0, "passes": [P(0, "reqdefer", 1, 2, cap=0), P(1, "idle", cap=0), P(1, "idle", cap=0),
+                                                    P(1, "idle", cap=0), P(1, "idle", cap=0), P(1, "idle", cap=7),
+                                                    P(3, "idle", cap=0), P(1, "idle", cap=0)]},
+        # client keeps talking while the app is not ready: that is traffic; wind while the app is not ready
+        {"tls": False, "T": 3, "t0": 0, "passes": [P(0, "reqdefer", 1, NEVER), P(2, "rx", 1), P(2, "rx", 1), P(2, "idle"), P(1, "idle")]},
+        {"tls": True, "T": 3, "t0": 9, "passes": [P(0, "reqdefer", 1, NEVER), [0, ["wind"], 0], P(2, "idle"), P(1, "idle")]},
         # client keeps sending while the response is stuck: that is traffic
         {"tls": False, "T": 3, "t0": 0, "passes": [P(0, "reqclose", 1, cap=0), P(2, "rx", 1, cap=0), P(2, "rx", 1, cap=0),
                                                     P(2, "idle", cap=0), P(1, "idle", cap=0)]},
@@ -153,10 +169,14 @@ def generate(rng, tier):
                 a = ["req", rng.choice([1, 1, 2])]
             else:
                 a = ["reqclose", rng.choice([1, 2])]
-            if not responding and a[0] in ("req", "reqclose"):
+            if a[0] == "reqclose" and rng.random() < 0.5:
+                a = ["reqdefer", a[1], rng.choice([1, 2, 3, 5, NEVER, NEVER])]
+            if not responding and a[0] in ("req", "reqclose", "reqdefer"):
                 pend += R_EST
                 persisted = persisted or a[0] == "req"
-                responding = a[0] == "reqclose"
+                responding = a[0] != "req"
+                if a[0] == "reqdefer":
+                    pend -= R_EST        # (the estimate ignores when, if ever, the deferred response appears)
             c = cap()
             sent = min(c, pend)
             pend -= sent
@@ -183,9 +203,11 @@ class Feeder:
             return b"GET /idle/%d HTTP/1.1\r\n" % self.n
         return b"X-Pad-%d: abc\r\n" % self.n
 
-    def finish(self, close=False):
+    def finish(self, close=False, defer=0):
         self.n += 1
         tail = b"Connection: close\r\n\r\n" if close else b"\r\n"
+        if defer:
+            tail = b"X-Defer: %d\r\n" % defer + tail
         if not self.in_head:
             return b"GET /idle/%d HTTP/1.1\r\nHost: x\r\n" % self.n + tail
         self.in_head = False
@@ -196,8 +218,17 @@ BODY = b"0123456789abcdef" * 6
 
 
 def _app(environ, start_response):
+    """Answers BODY, after as many empty results ("not ready yet", one per service pass) as X-Defer asks for."""
     start_response("200 OK", [("Content-Type", "text/plain"), ("Content-Length", str(len(BODY)))])
-    return [BODY]
+    d = int(environ.get("HTTP_X_DEFER", "0"))
+    if not d:
+        return [BODY]
+
+    def later():
+        for _ in range(d):
+            yield b""
+        yield BODY
+    return later()
 
 
 def _as_int(x):
@@ -242,15 +273,17 @@ def run_impl(case):
                 closed = core.closes > 0
                 out.append({"closed": closed, "tmo": _as_int(ix.tymeout / u), "st": _as_int(ix.tymer._start / u),
                             "sp": _as_int(ix.tymer._stop / u), "pend": 0 if closed else len(ix.txbs),
-                            "sent": 0, "now": _as_int(tymist.tyme / u)})
+                            "sent": 0, "now": _as_int(tymist.tyme / u),
+                            "inprog": (not closed) and ca in srv.reps and not srv.reps[ca].ended})
                 continue
             tymist.tyme = tymist.tyme + float(dt) * u
             world.send_cap = None if cap >= ALL else cap
             chunks = []
             if a[0] == "rx":
                 chunks = [feeder.partial() for _ in range(a[1])]
-            elif a[0] in ("req", "reqclose"):
-                chunks = [feeder.partial() for _ in range(a[1] - 1)] + [feeder.finish(close=a[0] == "reqclose")]
+            elif a[0] in ("req", "reqclose", "reqdefer"):
+                chunks = [feeder.partial() for _ in range(a[1] - 1)] + [
+                    feeder.finish(close=a[0] != "req", defer=a[2] if a[0] == "reqdefer" else 0)]
             if core is None:
                 # first pass: the connection is accepted inside this service(); its bytes are already in flight
                 servant.ss.core.queue.append([CA, False, ["ok"], chunks])
@@ -273,7 +306,8 @@ def run_impl(case):
                 total_before = total
             out.append({"closed": closed, "tmo": _as_int(ix.tymeout / u), "st": _as_int(ix.tymer._start / u),
                         "sp": _as_int(ix.tymer._stop / u), "pend": 0 if closed else len(ix.txbs),
-                        "sent": len(core.sent) - sent_before, "now": _as_int(tymist.tyme / u)})
+                        "sent": len(core.sent) - sent_before, "now": _as_int(tymist.tyme / u),
+                        "inprog": (not closed) and ca in srv.reps and not srv.reps[ca].ended})
         world.send_cap = None
         srv.close()
         leaked = world.open_ids()
@@ -288,7 +322,7 @@ def _expect(case, obs):
     """The property per pass, from the schedule and the bytes the implementation was seen to move:
     (must_close, may_close, last_moved_before, persistent)."""
     T, now = case["T"], case["t0"]
-    last, persisted, responding, closed, pend_prev = case["t0"], False, False, False, 0
+    last, persisted, responding, closed, pend_prev, inprog_prev = case["t0"], False, False, False, 0, False
     exp = []
     for p, o in zip(case["passes"], obs["passes"]):
         dt, a, cap = _norm(p)
@@ -301,7 +335,7 @@ def _expect(case, obs):
         now += dt
         before = last
         idle_due = (not closed) and T > 0 and not persisted and now >= last + T
-        done_due = (not closed) and responding and pend_prev == 0     # response finished and completely out
+        done_due = (not closed) and responding and not inprog_prev and pend_prev == 0   # response finished and completely out
         exp.append((idle_due, idle_due or done_due, before, persisted))
         if o["closed"]:
             closed = True
@@ -311,9 +345,9 @@ def _expect(case, obs):
             if not responding:
                 if a[0] == "req":
                     persisted = True
-                elif a[0] == "reqclose":
+                elif a[0] in ("reqclose", "reqdefer"):
                     responding = True
-            pend_prev = o["pend"]
+            pend_prev, inprog_prev = o["pend"], o["inprog"]
     return exp
 
 
@@ -354,6 +388,8 @@ def nontrivial(case, obs):
             hit = True
         if not o["closed"] and o["pend"] > 0 and o["sent"] == 0 and cap == 0:
             hit = True
+        if not o["closed"] and o["inprog"]:
+            hit = True
         if (a[0] != "idle" or o["sent"] > 0) and not o["closed"]:
             last = now
     return hit
@@ -366,6 +402,8 @@ def _act(a):
         return "Idle.Quiet"
     if a[0] == "wind":
         return "Idle.Rewind"
+    if a[0] == "reqdefer":
+        return f"(Idle.ReqDefer {coq_N(a[1])} {coq_N(a[2])})"
     c = {"rx": "Idle.Rx", "req": "Idle.Req", "reqclose": "Idle.ReqClose"}[a[0]]
     return f"({c} {coq_N(a[1])})"
 
@@ -379,11 +417,12 @@ def to_coq(case, obs):
     ob = []
     for o in obs["passes"]:
         op = not o["closed"]
-        ob.append("(%s, %s, %s, %s, %s)" % (coq_bool(o["closed"]), coq_Z(o["tmo"]), coq_Z(o["st"] if op else 0),
-                                             coq_Z(o["sp"] if op else 0), coq_N(o["pend"] if op else 0)))
+        ob.append("(%s, %s, %s, %s, %s, %s)" % (coq_bool(o["closed"]), coq_Z(o["tmo"]), coq_Z(o["st"] if op else 0),
+                                                 coq_Z(o["sp"] if op else 0), coq_N(o["pend"] if op else 0),
+                                                 coq_bool(bool(o["inprog"]) and op)))
     return ("{| Idle.k_T := %s; Idle.k_t0 := %s; Idle.k_R := %s; Idle.k_sched := %s; Idle.k_obs := %s |}" % (
         coq_Z(case["T"]), coq_Z(case["t0"]), coq_N(obs["R"]), coq_list(sched, "Idle.step"),
-        coq_list(ob, "bool * Z * Z * Z * N")))
+        coq_list(ob, "bool * Z * Z * Z * N * bool")))
 
 
 def shrink(case):
@@ -405,11 +444,12 @@ def shrink(case):
 def distribution(cases, obs):
     d = {"tls": sum(1 for c in cases if c["tls"]), "T<=0": sum(1 for c in cases if c["T"] <= 0),
          "closed": 0, "with_nonpersistent_response": 0, "with_blocked_send_while_pending": 0,
+         "with_response_in_progress": sum(1 for o in obs if isinstance(o, dict) and any(q.get("inprog") for q in o.get("passes", []))),
          "with_wind": sum(1 for c in cases if any(_norm(p)[1][0] == "wind" for p in c["passes"]))}
     for c, o in zip(cases, obs):
         if isinstance(o, dict) and "passes" in o and o["passes"]:
             d["closed"] += 1 if o["passes"][-1]["closed"] else 0
-            d["with_nonpersistent_response"] += 1 if any(_norm(p)[1][0] == "reqclose" for p in c["passes"]) else 0
+            d["with_nonpersistent_response"] += 1 if any(_norm(p)[1][0] in ("reqclose", "reqdefer") for p in c["passes"]) else 0
             d["with_blocked_send_while_pending"] += 1 if any(
                 (not q["closed"]) and q["pend"] > 0 and q["sent"] == 0 for q in o["passes"]) else 0
     return d
